@@ -269,6 +269,13 @@ cdef inline int subelem(
 
     _unpack_len[itemlen_t](buf, offset[0], &elemlen)
     offset[0] += sizeof(itemlen_t)
+    if itemlen_t is int32_t:
+        if elemlen < 0:
+            # a null element (length -1): from_binary maps a negative size to None,
+            # like the pure-Python collection deserializers
+            elem_buf.ptr = NULL
+            elem_buf.size = elemlen
+            return 0
     slice_buffer(buf, elem_buf, offset[0], elemlen)
     offset[0] += elemlen
     return 0
